@@ -64,6 +64,8 @@ LEAVES = [
     # typed non-string enums
     L("enum_int", {"type": "integer", "enum": [1, 2]}, enf=True),
     L("enum_bool", {"type": "boolean", "enum": [True]}, enf=True),
+    L("enum_u64", {"type": "integer", "format": "uint64", "minimum": 0, "enum": [0, 7, 18446744073709551615]}, enf=True),
+    L("enum_i64neg", {"type": "integer", "format": "int64", "enum": [-9223372036854775808, -1, 9223372036854775807]}, enf=True),
     L("enum_num", {"type": "number", "enum": [1.5, 2.5]}, enf=True),
     # untyped enums
     L("enum_strnull", {"enum": ["a", "b", None]}, strish=False),
@@ -84,7 +86,7 @@ LEAF = {l["id"]: l for l in LEAVES}
 
 REDUCED_LEAVES = ["string", "integer", "boolean", "u8", "str_max2", "enum_ab", "uuid", "any"]
 QUICK_LEAVES = ["string", "integer", "number", "boolean", "null", "any", "u8", "i64", "nz32", "int_min0", "int_max255", "uuid",
-                "date", "str_1_2", "str_0_3", "str_pat_max", "enum_ab", "enum_odd", "enum_excl", "enum_mb", "enum_int", "enum_bool", "enum_strnull",
+                "date", "str_1_2", "str_0_3", "str_pat_max", "enum_ab", "enum_odd", "enum_excl", "enum_mb", "enum_int", "enum_u64", "enum_bool", "enum_strnull",
                 "multi_type"]
 
 
@@ -180,6 +182,8 @@ SOLO_COMPOSITES = [
                                     obj({"kind": {"type": "string", "enum": ["label"]}, "value": STR}, ["kind", "value"])]}),
     L("ext_shared_inline", {"oneOf": [obj({"A": obj({"v": obj({"x": INT}, ["x"])}, ["v"])}, ["A"], additionalProperties=False),
                                       obj({"B": obj({"v": obj({"y": STR}, ["y"])}, ["v"])}, ["B"], additionalProperties=False)]}),
+    L("untagged_subset", {"oneOf": [obj({"name": STR}, ["name"], additionalProperties=False), obj({"name": STR, "email": STR}, ["name", "email"])]}),
+    L("untagged_subset_rev", {"oneOf": [obj({"name": STR, "email": STR}, ["name", "email"]), obj({"name": STR}, ["name"], additionalProperties=False)]}),
     L("untagged_arr_tuple", {"anyOf": [{"type": "array", "items": INT, "maxItems": 1},
                                        {"type": "array", "items": [INT, INT], "minItems": 2, "maxItems": 2}]}, ff=False),
     L("untagged_tuples_f64", {"oneOf": [{"type": "array", "items": [{"type": "number"}, {"type": "number"}], "minItems": 2, "maxItems": 2},
